@@ -119,7 +119,7 @@ func (v *FnVerifier) alloc(st *State) string {
 
 // assumeClosed: pointers/slices/maps stored in heap `name` refer to allocated objects (< alloc).
 func (v *FnVerifier) assumeClosed(key, name, alloc string) {
-	if key == "GH!transmitted" || key == "GH!sdirty" {
+	if key == "GH!transmitted" || key == "GH!sdirty" || key == "GH!handed" {
 		// only objects that exist can have been handed to TransmitMessage / can have met a malformation
 		v.smt.assert(fmt.Sprintf("(forall ((q0 Int)) (! (=> (select %s q0) (< q0 %s)) :pattern ((select %s q0))))", name, alloc, name))
 		return
